@@ -250,6 +250,8 @@ def seal_extra(prop, tier, seed):
                         for sside, rside in (("node", "server"), ("server", "node")):
                             ops.append(dict(op="Crypt", msg=m, sside=sside, rside=rside, s=P("e1", "g1", sk), rcur=P("e1", "g1", rk), rprev=none, tamper="none", sid="keyid", rid="keyid"))
                             ops.append(dict(op="Crypt", msg=m, sside=sside, rside=rside, s=P("e1", "g1", sk), rcur=P("e2", "g2", rk), rprev=P("e1", "g1", pk), tamper="none", sid="keyid", rid="keyid"))
+                            ops.append(dict(op="Crypt", msg=m, sside=sside, rside=rside, s=P("e1", "g1", sk), rcur=P("e2", "g2", rk), rprev=P("e1", "g1", pk), tamper="none", sid="keyid", rid="keyid", rstore=True))
+                            ops.append(dict(op="Crypt", msg=m, sside=sside, rside=rside, s=P("e1", "g1", sk), rcur=P("e1", "g1", rk), rprev=none, tamper="none", sid="keyid", rid="keyid", retain=True))
         out.append(dict(id="x11_ids", ops=ops))
         for mi, m in enumerate(msgs):
             for variant, (rc, rp) in enumerate([(P("e1", "g1", "k1"), none), (P("e2", "g2", "k2"), P("e1", "g1", "k1"))]):
@@ -269,6 +271,8 @@ def seal_extra(prop, tier, seed):
                     for wr in (True, False):
                         for ws in (False, True):
                             ops.append(dict(op="Rec", t=t, present=list(sub), wrapper=wr, withState=ws, rot=False))
+                            if t == "nodeinfo" and wr:
+                                ops.append(dict(op="Rec", t=t, present=list(sub), wrapper=wr, withState=ws, rot=False, rekey=True))
                             if t == "nodecreds" and "nonce" in sub:
                                 ops.append(dict(op="Rec", t=t, present=list(sub), wrapper=wr, withState=ws, rot=False, longNonce=True))
                             if wr:
